@@ -601,3 +601,49 @@ Proof.
       split; [repeat constructor; intros []|]. split; [repeat constructor|reflexivity].
     + repeat constructor; cbn; intros; try discriminate; reflexivity.
 Qed.
+
+(* Exactly which steps set ms_bad (leave the modelled envelope): a step at MRun
+   that extends the file although this thread's lookups extended it before, or
+   the head load of a nested walk that does not find on the list the counter
+   whose lookup extended the file (an Add on a counter another goroutine is still
+   registering).  No other step changes the flag. *)
+Theorem C03_multi_bad_set_exactly_by : forall st i,
+  ms_bad (fst (mstep st i)) =
+  ms_bad (fst st) || match nth_error (snd st) i with Some t => CounterMultiCtl3.bad_cause (fst st) t | None => false end.
+Proof. exact CounterMultiCtl3.mstep_bad. Qed.
+Print Assumptions C03_multi_bad_set_exactly_by.
+
+(* Non-vacuity of the general theorems: the first open of an existing FULL file by a
+   process with a pending counter (changerM FullFile) and the first Add on a fresh
+   counter: the hypotheses hold, and on this schedule the opener's own
+   refresh-lookup extends the file (m_grown), the nested walk runs, mapping 0 is
+   closed, everything is persisted and both flags stay clear. *)
+Example C03_multi_example_open_of_full_file :
+  let ms0 := minit [HAVE + 2 * XUNIT; 0] [0%nat] in
+  let ts0 := [changerM 2 FullFile; adderM 2 1 3] in
+  (mgood ms0 ts0 /\ reg_init ms0 /\ CounterMultiCtl2.ctl_init ms0 ts0) /\
+  let st := mrun (repeat 0 90 ++ repeat 1 60)%nat (ms0, ts0) in
+  m_all_done (snd st) = true /\ mflags (fst st) = (false, false) /\ map m_grown (snd st) = [true; false] /\
+  ms_closed (fst st) = [0%nat] /\
+  map (fun c => (fold_right Z.add 0 (c_cells c), w_extra (c_word c))) (ms_ctrs (fst st)) = [(2, 0); (3, 0)].
+Proof.
+  cbv zeta. split; [|vm_compute; repeat split; reflexivity]. split; [|split].
+  - unfold mgood. split; [reflexivity|]. split; [reflexivity|]. split.
+    { constructor; [right; exists FullFile; reflexivity|]. constructor; [left; exists 1%nat, 3; repeat split; cbn; lia|constructor]. }
+    split; [vm_compute; reflexivity|].
+    intros k Hk. cbn in Hk. destruct k as [|[|k]]; [| |lia].
+    + split; [vm_compute; split; [discriminate|reflexivity]|]. split.
+      { unfold wf. cbn. repeat split; try (intros g X; discriminate X); constructor. }
+      split; [vm_compute; reflexivity|]. unfold init_clean. cbn [proj minit getc ms_ctrs map nth s_word s_ptr s_cur c_word c_ptr ms_cur].
+      split; [reflexivity|]. split; [intros _ X; exfalso; apply X; reflexivity|]. intros _. split; vm_compute; reflexivity.
+    + split; [vm_compute; split; [discriminate|reflexivity]|]. split.
+      { unfold wf. cbn. repeat split; try (intros g X; discriminate X); constructor. }
+      split; [vm_compute; reflexivity|]. unfold init_clean. cbn [proj minit getc ms_ctrs map nth s_word s_ptr s_cur c_word c_ptr ms_cur].
+      split; [reflexivity|]. split; [intros _ X; exfalso; apply X; reflexivity|]. intros X. vm_compute in X. discriminate X.
+  - intros k Hk. cbn in Hk. destruct k as [|[|k]]; [left|right|lia]; split; reflexivity.
+  - split.
+    + unfold CounterMultiCtl2.MW, CounterMultiCtl2.nc. cbn. split; [reflexivity|]. split.
+      { intros j [<-|[]]. split; [lia|reflexivity]. }
+      split; [repeat constructor; intros []|]. split; [repeat constructor|discriminate].
+    + constructor; [intros _; right; reflexivity|]. constructor; [intros X; discriminate X|constructor].
+Qed.
